@@ -12,7 +12,7 @@ ASSUMPTIONS = ["'base64-decodes to' is Qt's decoder (characters outside the alph
 TRUSTED = ["QByteArray::fromBase64 is modelled (Base64.v) and compared on every run"]
 
 USERS = [b"alice", b"Alice", b"al", b"bob", b"", b"a:b", b"\xc3\xa9ve"]
-PASSES = [b"secret", b"Secret", b"sec", b"", b"p:w", b"secret ", b"x" * 20]
+PASSES = [b"secret", b"Secret", b"sec", b"", b"p:w", b"secret ", b"x" * 20, b"q" * 260]
 
 
 def cases(tier, seed, ctx=None):
@@ -55,6 +55,10 @@ def cases(tier, seed, ctx=None):
         elif kind == 11: hv = rng.choice([b"Bearer ", b"Digest ", b"Basi ", b"Basicx "]) + tok; tag = "other-scheme"
         elif kind == 12: hv = rng.bytes(rng.range(0, 14), b"Basic QWxhZGRpbjpvcGVu=: \t"); tag = "random"
         elif kind == 13: hv = b"Basic " + tok + b" x"; tag = "trailing-part"
+        if kind == 0 and rng.chance(1, 3):
+            # wrong passwords that share a prefix with the right one and whose length differs by a multiple of 256 (or by 255/257)
+            extra = rng.choice([256, 512, 255, 257, 768])
+            hv = b"Basic " + base64.b64encode(u + b":" + p + rng.bytes(extra, b"abcxyz019")); tag = "password-plus-%d" % extra
         lines = [b"Host: h"]
         if hv is not None:
             lines.insert(rng.below(2), rng.choice([b"Authorization", b"authorization", b"AUTHORIZATION"]) + b": " + hv)
